@@ -458,7 +458,7 @@ def check_hillshade(prog, rep):
     grads = []
     nonelem = []
     ELEM = {'arctan', 'sqrt', 'arctan2', 'sin', 'cos', 'astype', 'float32', 'float64', 'radians', 'hypot', 'tan',
-            'arcsin', 'arccos', 'abs', 'power', 'square', 'deg2rad'}
+            'arcsin', 'arccos', 'abs', 'power', 'square', 'deg2rad', 'dtype'}      # `np.dtype('float32')` names a type
     for n in f.own_nodes():
         if isinstance(n, ast.Call):
             t = prog.resolve_callable(f, f.module, n.func)
@@ -497,7 +497,12 @@ def check_hillshade(prog, rep):
         try:
             v = ast.literal_eval(e)
         except Exception:
-            return None
+            # a module-level constant (`_BORDER = [0, -1]`): its value, folded
+            try:
+                from ..consteval import CannotFold, fold_expr
+                v = fold_expr(prog, f.module, e)
+            except Exception:     # noqa - CannotFold or anything the folder does not model
+                return None
         if isinstance(v, int) and not isinstance(v, bool):
             return {v}
         if isinstance(v, (tuple, list)) and v and all(isinstance(x, int) and not isinstance(x, bool) for x in v):
@@ -598,29 +603,47 @@ def check_resolution(prog, rep):
     rep.add('S5-res', f, 'calc_res', 'return xres, yres', f.node.lineno, ok,
             'xres must be the x-coordinate range over (width-1) and yres the y range over (height-1): ' + detail)
     g = prog.func('utils', 'get_dataarray_resolution')
-    # every 2-tuple assignment into the returned pair keeps (x, y) order
-    rets = [n for n in g.own_nodes() if isinstance(n, ast.Return)]
-    ok = len(rets) == 1 and isinstance(rets[0].value, ast.Tuple) and len(rets[0].value.elts) == 2 and \
-        all(isinstance(e, ast.Name) for e in rets[0].value.elts)
-    if ok:
-        nx, ny = [e.id for e in rets[0].value.elts]
-        for n in g.own_nodes():
-            if isinstance(n, ast.Assign):
-                t = n.targets[0]
-                if isinstance(t, ast.Tuple):
-                    ids = [e.id for e in t.elts if isinstance(e, ast.Name)]
-                    good = ids == [nx, ny]
-                    if good and isinstance(n.value, ast.Call):
-                        tt = prog.resolve_callable(g, g.module, n.value.func)
-                        good = isinstance(tt, Func) and tt.name == 'calc_res'
-                    rep.add('S5-res', g, 'get_dataarray_resolution', norm(n), n.lineno, good,
-                            'pair assignments must keep the (x, y) order of res / calc_res')
-                elif isinstance(t, ast.Name) and t.id in (nx, ny):
-                    rep.add('S5-res', g, 'get_dataarray_resolution', norm(n), n.lineno,
-                            isinstance(n.value, ast.Name), 'scalar res applies to both axes', trivial=True)
+    # what it returns, as a wrapper term: on every path the pair is (x, y) - the two components of the `res` attribute in
+    # their order, one scalar `res` for both, or the two components of calc_res in their order.  Helpers, early returns and
+    # intermediate names do not matter.
+    from ..wterm import WT, key as tkey, show as tshow
+    w = WT(prog, keep=[f])
+    ret = w.run(g)
+
+    def comp(t, i):
+        if t is None:
+            return None
+        if t[0] == 'tuple' and len(t[1]) == 2:
+            return t[1][i]
+        if t[0] == 'phi':
+            return ('phi', t[1], comp(t[2], i), comp(t[3], i))
+        if t[0] == 'const' and t[1] is None:
+            return None
+        return ('index', t, ('const', i))
+
+    def leaves(t):
+        if t is None:
+            return []
+        if t[0] == 'phi':
+            return leaves(t[2]) + leaves(t[3])
+        return [t]
+    verdicts = []
+    for i in (0, 1):
+        for lf in leaves(comp(ret, i)) if ret is not None else []:
+            if lf[0] == 'index' and lf[2][0] == 'const' and lf[2][1] in (0, 1):
+                verdicts.append((lf[2][1] == i, '%s component taken from position %d of %s' % ('xy'[i], lf[2][1], tshow(lf[1], 60))))
+            elif lf[0] == 'const':
+                verdicts.append((None, 'constant %r' % (lf[1],)))
+            else:
+                verdicts.append((True, 'scalar %s for both axes' % tshow(lf, 40)))      # one number for both axes
+    if ret is None or not verdicts:
+        rep.add('S5-res', g, 'get_dataarray_resolution', 'returned pair', g.node.lineno, None, 'returned value not understood')
     else:
-        rep.add('S5-res', g, 'get_dataarray_resolution', 'return statement', g.node.lineno, None,
-                'expected a single `return cellsize_x, cellsize_y`')
+        bad = [v for v in verdicts if v[0] is False]
+        und = [v for v in verdicts if v[0] is None]
+        rep.add('S5-res', g, 'get_dataarray_resolution', 'returned pair keeps the (x, y) order of res / calc_res on every path (%d leaves)' % len(verdicts),
+                g.node.lineno, False if bad else (None if und else True),
+                'pair assignments must keep the (x, y) order of res / calc_res; ' + '; '.join(v[1] for v in (bad or und)[:2]))
 
 
 def check_summarize(prog, rep):
@@ -703,6 +726,19 @@ def check(prog, rep):
     for modname, fn in (('slope', 'slope'), ('aspect', 'aspect'), ('curvature', 'curvature')):
         check_dispatch_passthrough(prog, rep, 'L9-pass', prog.func(modname, fn))
     rep.floor('L9-pass', 6)
+    # the scalars that go with the raster (cell sizes, sun angles) reach the shared kernel as the same quantities, in the same
+    # roles, on the dask path as on the numpy path (rule shared with C01)
+    from .C01 import check_pipe_args, find_dispatch, path_target
+    for modname, fn in (('slope', 'slope'), ('curvature', 'curvature'), ('hillshade', 'hillshade')):
+        pub_ = prog.func(modname, fn)
+        disp = find_dispatch(prog, pub_)
+        if disp is None:
+            raise AnalysisIncomplete('%s: backend dispatch not found' % fn)
+        f_np, _x = path_target(prog, disp[1]['numpy'])
+        f_da, _y = path_target(prog, disp[1]['dask'])
+        if f_np is not None and f_da is not None:
+            check_pipe_args(prog, rep, '%s[dask]' % fn, pub_, f_np, f_da, scalars_only=True)
+    rep.floor('H0-scalars', 3)
     rep.floor('L8-dask', 4)
     rep.floor('L1-loops', 3)
     rep.floor('L1-footprint', 3)
@@ -710,4 +746,4 @@ def check(prog, rep):
     rep.floor('L5-compass', 1)
     rep.floor('S7-bind', 3)
     rep.floor('L6-border', 1)
-    rep.floor('S5-res', 3)
+    rep.floor('S5-res', 2)
